@@ -28,15 +28,27 @@ DECIDED = [
     "R-C02-CATCH (dependencies): the dependency gathers of Depends.resolve / actor_run do not turn provider failures into values (no return_exceptions), names and values come from one mapping (C18's chain rules reused)",
     "R-C02-CATCH (total helpers): helpers process() calls outside the outcome try (get_payload) contain no raise of their own",
     "R-C02-LADDER (round 5): process() never re-binds the delivered key / payload / parameters (what is requeued is what was delivered); R-C02-CATCH: only a payload that IS a bucket reference (marker at its start) is looked up in the bucket broker (C07's marker rules reused)",
+    "R-C02-ONCE (round 6): nothing in runner / processor / consumers is shielded from cancellation; consumers hand back what they hold only after the in-flight deliveries were finished or cancelled (C03 shutdown reused); R-C16-EAGER: an eager action performs the action it is named after and no other",
+    "R-C02-AWAITED: in the files this property is anchored in, no bare statement calls a coroutine function (the operation would never run)",
 ]
 NOT_DECIDED = ["'the worker keeps processing the other messages' as liveness", "actors that swallow CancelledError/BaseException"]
 ASSUMPTIONS = ["exceptions raised by non-call expressions (subscripts, attribute access) are not modelled as edges"]
 
 
 def run(ctx: Ctx) -> None:
+    from .shared import every_operation_awaited
+
+    every_operation_awaited(ctx, "R-C02-AWAITED")  # in the files this property is anchored in, no asynchronous operation is created and dropped
     lt = check_ladder(ctx, "R-C02-LADDER")
     check_ladder_arguments(ctx, "R-C02-LADDER", lt)
     check_process_passthrough(ctx, "R-C02-LADDER")
+    from .C03 import shutdown
+
+    with ctx.as_rule("R-C02-ONCE"):
+        shutdown(ctx, "R-C02-ONCE")  # in-flight deliveries are finished (or cancelled + rejected) BEFORE the consumers hand back what they hold: otherwise a delivery is returned and then also acked / requeued
+    from .shared import no_shield
+
+    no_shield(ctx, "R-C02-ONCE", ("repid/_processor.py", "repid/_runner.py", "repid/worker.py", "repid/message.py", "repid/dependencies/message_dependency.py", "repid/connections/redis/consumer.py", "repid/connections/redis/message_broker.py", "repid/connections/rabbitmq/consumer.py", "repid/connections/rabbitmq/message_broker.py", "repid/connections/in_memory/consumer.py", "repid/connections/in_memory/message_broker.py"), "the runner cancels the processing task and rejects the message; a shielded report / take goes on and applies a second disposition (or takes a message nobody receives)")
     once(ctx)
     catch(ctx)
     race(ctx)
